@@ -305,6 +305,47 @@ def cell_cases(ctx, req, meta):
                     ctx.fail("cell-partition:wrong-active", case, f"in-states do not start with the active unit {aid}: {V} {act}")
                 if any(len(s) != 2 for s in E + S):
                     ctx.fail("cell-partition:pair-instate-arity", case, "excluded/surplus in-state is not a pair")
+                # the real cell-veto handler, driven on the in-state with each offset of its domain forced in turn: the cell it proposes
+                # into must be the cell at that offset FROM THE ACTIVE CELL THE OCCUPANCY RECORDS (the cell of the unit on the cell level,
+                # e.g. of the composite object - not of whichever point mass moves), otherwise the non-nearby cells of the active cell
+                # are not the cells treated by the cell-veto family
+                if act and dom:
+                    from jellyfysh.base.time import Time
+                    rels = dom if len(dom) <= 6 else rng.sample(dom, 6)
+                    dmove = rng.randrange(dim)
+                    leaf_index = rng.randrange(n_per) if (levels == 2 and cell_level == 1) else 0
+                    for rel in rels:
+                        def cp(u, vel):
+                            return Unit(u.identifier, list(u.position), None if u.charge is None else dict(u.charge),
+                                        None if vel is None else list(vel), None if vel is None else Time(0.0, 0.0))
+                        vel = [0.0] * dim
+                        vel[dmove] = 1.0
+                        if levels == 1:
+                            hb = Node(cp(rn.value, vel))
+                        else:
+                            kids = list(rn.children) if cell_level == 1 else [nd]
+                            hb = Node(cp(rn.value, [v / n_per for v in vel]), weight=1.0)
+                            for j, ch in enumerate(kids):
+                                hb.add_child(Node(cp(ch.value, vel if j == leaf_index else None), weight=1.0 / n_per))
+                        try:
+                            saved = veto_handler._upper_bound_walker[dmove]
+                            veto_handler._upper_bound_walker[dmove] = types.SimpleNamespace(total_rate=saved.total_rate, sample_cell=lambda rel=rel: rel)
+                            try:
+                                _, tcs = veto_handler.send_event_time([hb])
+                            finally:
+                                veto_handler._upper_bound_walker[dmove] = saved
+                        except Exception as e:  # noqa
+                            ctx.fail("cell-veto-handler:send_event_time:exception:" + type(e).__name__, case, f"raised {e!r}")
+                            break
+                        ctx.evaluations += 1
+                        ctx.count("cell:veto-handler-target-probed")
+                        want_cell = cells.translate(act[0][0], rel)
+                        if len(tcs) != 1 or tcs[0] is not want_cell:
+                            ctx.fail("cell-veto-handler:target-not-at-the-sampled-offset-from-the-recorded-active-cell",
+                                     {**case, "offset": list(rel.identifier), "moving_leaf": leaf_index},
+                                     f"recorded active cell {act[0][0].identifier}, offset {rel.identifier}: handler proposes into "
+                                     f"{[c.identifier for c in tcs]}, the cell at the offset is {want_cell.identifier}")
+                            break
                 multi = any(len(args) > 1 for _, args in T)
                 ctx.cls(("cell", dim, layers, cap if cap <= 2 else 3, charge is not None, cell_level, bool(excl_t), bool(surp_t),
                          bool(veto_t), multi, len(order[:step]) > 1))
